@@ -99,6 +99,8 @@ func (c *Collection) DeleteWithMeta(_ context.Context, key string, oldCas CAS, n
 
 // storeDocument performs a write to the underlying sqlite database of a document from a given event.
 func (c *Collection) storeDocument(txn *sql.Tx, e *event) error {
+	// A document is a tombstone exactly when it has no body (e.g. an xattr-only write to a missing or deleted key).
+	e.isDeletion = e.isDeletion || e.value == nil
 	tombstone := 0
 	if e.isDeletion {
 		tombstone = 1
